@@ -2,8 +2,9 @@
 use vx_kit::{Check, Level};
 fn main() {
     let check = Check::from_args("C19", Level::Exploration);
-    check.set_rule("every native image with rows, cols, frames in 1..=3, 1|3 samples, 8|16 bits allocated, at most 4 (thorough: 6) samples, every sample from a 3-value byte-asymmetric alphabet, plus 5 larger index-coded shapes; variants planar configuration 0|1, Number of Frames absent, 8-bit samples in OW; x origin {built through the API, read from a vx-ref encoded Part 10 file} x source syntax {Implicit LE, Explicit LE, Explicit BE} x target {every lossless encoder of the build, 3 native syntaxes} x intermediate {in memory; for encapsulated targets also written and read back}; a case is distinct by (image, origin, source, target, intermediate); non-trivial = the source object was built and transcode(target) was called");
+    check.set_rule("every native image with rows, cols, frames in 1..=3, 1|3 samples, 8|16 bits allocated, at most 4 (thorough: 6) samples, every sample from a 3-value byte-asymmetric alphabet, plus 5 larger index-coded shapes; variants planar configuration 0|1, Number of Frames absent, 8-bit samples in OW; x origin {built through the API, read from a vx-ref encoded Part 10 file} x source syntax {Implicit LE, Explicit LE, Explicit BE} (quick: API-built objects only with Explicit LE) x target {every lossless encoder of the build, 3 native syntaxes} x intermediate {in memory; for encapsulated targets also written and read back}; plus a boundary-size family: frames of 32767, 32768, 65535, 65536, 65538, 65541 and 262145 bytes (8-bit monochrome; also one 16-bit and one RGB shape of ~64 KiB), contents {fixed LCG byte stream, all zero, ramp}, 1 and 2 frames, API origin, Explicit LE source, every lossless and native target; a case is distinct by (image, origin, source, target, intermediate); non-trivial = the source object was built and transcode(target) was called");
     check.assume("vx-ref Part 10 encoder/strict parser are the trusted base; the final stream is inspected with the vx-ref parser, not with dicom-rs");
     vx_pix::xcode::run_c19(&check);
+    vx_pix::xcode::run_c19_boundary(&check);
     check.finish();
 }
